@@ -931,15 +931,16 @@ func AdoptSession(p Persistence, c *Config) (client *Client, warn []error, fatal
 	}
 
 	// instantiate client
-	if n := len(publishAtLeastOnceKeys); n > c.AtLeastOnceMax {
-		return nil, warn, fmt.Errorf("mqtt: %d AtLeastOnceMax is less than the %d pending in session", c.AtLeastOnceMax, n)
-	}
-	if n := len(publishExactlyOnceKeys) + len(publishReleaseKeys); n > c.ExactlyOnceMax {
-		return nil, warn, fmt.Errorf("mqtt: %d ExactlyOnceMax is less than the %d pending in session", c.ExactlyOnceMax, n)
-	}
 	rugged := &ruggedPersistence{Persistence: p}
 	rugged.seqNo.Store(storeOrderLast) // continue sequence
 	client = newClient(rugged, c)
+	// compare with the limits in effect: negative values default
+	if n := len(publishAtLeastOnceKeys); n > client.AtLeastOnceMax {
+		return nil, warn, fmt.Errorf("mqtt: %d AtLeastOnceMax is less than the %d pending in session", client.AtLeastOnceMax, n)
+	}
+	if n := len(publishExactlyOnceKeys) + len(publishReleaseKeys); n > client.ExactlyOnceMax {
+		return nil, warn, fmt.Errorf("mqtt: %d ExactlyOnceMax is less than the %d pending in session", client.ExactlyOnceMax, n)
+	}
 
 	// check for outbound publish pending confirmation
 	if keys = publishAtLeastOnceKeys; len(keys) != 0 {
